@@ -101,6 +101,49 @@ def _one(item):
     return ("ok_state", state)
 
 
+_FRESH_RENAMED = {}
+
+
+def fresh_renamed(dname, victim):
+    import hdl21 as h
+    from ..build import build
+
+    if (dname, victim) not in _FRESH_RENAMED:
+        out = {}
+        design = dags.DAGS[dname]()
+        for top in design["modules"]:
+            built = build(design)
+            built.modules[victim].name = victim + "Final"
+            out[top] = h.to_proto(built.modules[top]).SerializeToString(deterministic=True)
+        _FRESH_RENAMED[(dname, victim)] = out
+    return _FRESH_RENAMED[(dname, victim)]
+
+
+def _one_rename(item):
+    """History, then one module is given its final name: every package equals that of a fresh build with the same name."""
+    import hdl21 as h
+    from ..build import build
+
+    dname, hist, victim = item
+    design = dags.DAGS[dname]()
+    fresh = fresh_renamed(dname, victim)
+    built = build(design)
+    try:
+        for call in hist:
+            do_call(h, built, call)
+        built.modules[victim].name = victim + "Final"
+    except Exception as e:
+        return ("call_raised", short_exc(e))
+    for top in design["modules"]:
+        try:
+            got = h.to_proto(built.modules[top]).SerializeToString(deterministic=True)
+        except Exception as e:
+            return ("export_raised", f"{top}: {short_exc(e)}")
+        if got != fresh[top]:
+            return ("differs", f"after renaming {victim}, the package of {top} differs from the package of a fresh build with that name")
+    return ("ok_state", ("renamed", victim))
+
+
 def new_parent_check(h, design, built, dname):
     """A new parent instantiating an elaborated mid-level module through its bundle port, by bundle instance and by
     anonymous bundle."""
@@ -176,6 +219,17 @@ def run(ctx):
             if r:
                 ctx.violation(dict(dag=dn, kind=r[0], first_call=hh[0][0], what=r[1][:60]), dict(dag=dn, history=[[k, list(ms)] for k, ms in hh]), r[1])
         ctx.fam(dname, histories=len(items), call_alphabet=len(calls))
+        # a module renamed after the history
+        ritems = [(dname, [c], v) for c in calls for v in design["modules"]]
+        res = ctx.pmap(_one_rename, ritems, chunk=40)
+        for (dn, hh, v), r in zip(ritems, res):
+            ctx.count(states=1, transitions=len(hh) + 1 + len(design["modules"]), traces_validated_against_impl=1)
+            if r[0] == "ok_state":
+                ctx.outcome(("state", dn, r[1]))
+            else:
+                ctx.outcome(r[0])
+                ctx.violation(dict(dag=dn, kind="rename:" + r[0], first_call=hh[0][0], what=r[1][:60]), dict(dag=dn, history=[[k, list(ms)] for k, ms in hh], rename=v), r[1])
+        ctx.fam(dname + "/renamed_after", histories=len(ritems))
         total += len(items)
         ctx.sample(dict(dag=dname, history=[[k, list(ms)] for k, ms in hists[len(hists) // 2]]))
     # fresh sub-processes: the in-worker "fresh build" must agree with a genuinely fresh process
@@ -197,7 +251,10 @@ def run(ctx):
 
 def replay(body):
     c = body["case"]
-    r = _one((c["dag"], [(k, tuple(ms)) for k, ms in c["history"]]))
+    if "rename" in c:
+        r = _one_rename((c["dag"], [(k, tuple(ms)) for k, ms in c["history"]], c["rename"]))
+    else:
+        r = _one((c["dag"], [(k, tuple(ms)) for k, ms in c["history"]]))
     if r is not None and r[0] == "ok_state":
         r = None
     print("replay:", r or "holds")
